@@ -132,7 +132,7 @@ fn describe_x(x: &Mat, n: usize, p: usize, eps: f64, obs: &mut Obs) -> XInfo {
 // elastic net
 
 fn enet_cfg(c: &EnetCase, tol: f64, max_iter: u32) -> EnetCfg {
-    EnetCfg { multi: c.multi, penalty: c.penalty, l1_ratio: c.l1_ratio, intercept: c.intercept, tol, max_iter }
+    EnetCfg { multi: c.multi, penalty: c.penalty, l1_ratio: c.l1_ratio, intercept: c.intercept, tol, max_iter, ctor: c.ctor, leave_defaults: c.leave_defaults }
 }
 
 fn run_enet(c: &EnetCase, n: usize, p: usize, t: usize, tol: f64, max_iter: u32) -> Result<EnetOut, String> {
@@ -216,6 +216,18 @@ fn check_enet(c: &EnetCase, obs: &mut Obs) {
     obs.class_if(c.f32, "f32");
     obs.class_if(c.intercept, "intercept_on");
     obs.class_if(!c.intercept, "intercept_off");
+    {
+        let preset = c.ctor == 3 && (c.l1_ratio == 0.0 || c.l1_ratio == 1.0);
+        obs.class_if(c.ctor == 1, "ctor_params_new");
+        obs.class_if(c.ctor == 2, "ctor_params_default");
+        obs.class_if(preset, "ctor_preset_lasso_or_ridge");
+        obs.class_if(c.ctor != 1 && c.ctor != 2 && !preset, "ctor_estimator_params");
+        obs.class_if(c.leave_defaults && c.intercept == fit::DEF_INTERCEPT, "intercept_left_at_documented_default");
+        obs.class_if(c.leave_defaults && c.penalty == fit::DEF_PENALTY, "penalty_left_at_documented_default");
+        obs.class_if(c.leave_defaults && c.l1_ratio == fit::DEF_L1_RATIO, "l1_ratio_left_at_documented_default");
+        obs.class_if(c.leave_defaults && c.tol == fit::DEF_TOL, "tolerance_left_at_documented_default");
+        obs.class_if(!c.leave_defaults, "all_options_set_explicitly");
+    }
     obs.class_if(c.penalty == 0.0, "penalty_0");
     obs.class_if(c.penalty > 0.0 && c.penalty < 0.05, "penalty_1e-3");
     obs.class_if(c.penalty >= 0.05 && c.penalty < 5.0, "penalty_0.1_or_1");
@@ -616,6 +628,11 @@ fn check_ols(c: &OlsCase, obs: &mut Obs) {
     obs.class_if(!c.f32, "f64");
     obs.class_if(c.intercept, "intercept_on");
     obs.class_if(!c.intercept, "intercept_off");
+    obs.class_if(c.ctor == 1, "ctor_default");
+    obs.class_if(c.ctor != 1, "ctor_new");
+    obs.class_if(c.leave_defaults && c.intercept, "intercept_left_at_documented_default");
+    obs.class_if(!(c.leave_defaults && c.intercept), "intercept_set_explicitly");
+    obs.class_if(c.ctor == 1 && c.leave_defaults && c.intercept, "ctor_default_intercept_untouched");
     let eps = eps_of(c.f32);
 
     // conditioning of the (augmented) design, columns scaled to unit length
@@ -643,9 +660,9 @@ fn check_ols(c: &OlsCase, obs: &mut Obs) {
 
     let fitted = obs.call("linear_regression.fit", || {
         if c.f32 {
-            fit_ols::<f32>(&c.x, &c.y, n, p, c.intercept)
+            fit_ols::<f32>(&c.x, &c.y, n, p, c.intercept, c.ctor, c.leave_defaults)
         } else {
-            fit_ols::<f64>(&c.x, &c.y, n, p, c.intercept)
+            fit_ols::<f64>(&c.x, &c.y, n, p, c.intercept, c.ctor, c.leave_defaults)
         }
     });
     let out = match fitted {
@@ -786,6 +803,8 @@ pub fn property() -> Property {
         rule: "cases = finished (X, y) matrices + estimator configuration. X = (G + k) diag(scale): G gaussian or small-integer lattice, n 6..=60, p 1..=6, n >= p+2, \
                scale_j = 10^(e/2) with e in -6..=6, offset k_j in {exactly centred, raw, +-1, +-100} column scales (at most one +-100), optional constant column (zero or non-zero), \
                near-collinear pair (elastic net; the pair only with a positive ridge part) or planted feature exactly uncorrelated with every target (column e_a - e_b with y_a = y_b); y = X w* + b* + sigma noise with row-sparse w*, 1..=3 target columns for the multi-task estimator; \
+               construction path: LinearRegression::new() | ::default(); ElasticNet::params() | ElasticNetParams::new() | ::default() | preset lasso()/ridge() (same for the multi-task type), \
+               each with every option either set explicitly or, when its value equals the documented default (intercept on, penalty 1.0, l1_ratio 0.5, tolerance 1e-4), left untouched; \
                penalty in {0,1e-3,0.1,1,10}, l1_ratio in {0,0.3,0.5,1}, intercept on/off, tolerance in {1e-4,1e-8,1e-12} (f32: {1e-3,1e-4}), max_iterations 10000 (quick) / 100000 (thorough). \
                Non-trivial = judged (converged) case with un-centred X and intercept, or >= 1 exactly-zero and >= 1 non-zero coefficient row, or multi-task with >= 2 target columns; \
                for OLS: un-centred X with intercept. distinct = distinct canonical JSON of the case",
@@ -799,6 +818,7 @@ pub fn property() -> Property {
             format!("exact-zero rule: row j must be exactly zero when ||x_j^T(partial residual)|| + margin < n*penalty*l1_ratio*(1-1e-9); margin = sum_{{k>j}} |x_j^T x_k| * ||W_k - W_k(previous sweep)|| + {DRIFT_F64:e}*||x_j||*(cancellation-free residual norm); the previous sweep's iterate is obtained from linfa itself with tolerance 0 and max_iterations = n_steps-1; f64 only"),
             format!("OLS: |x_j^T r| <= {ORTH_EPS}*eps*||x_j||*M and |1^T r| <= {ORTH_EPS}*eps*sqrt(n)*M with M = ||y|| + sum_k ||x_k|| |w_k| + sqrt(n)|b|; SSE slack 1e4*eps*M^2; agreement with the reference solve within {AGREE_EPS}*eps*cond*M where cond is the condition number of the unit-column Gram matrix of [X 1]; designs with cond > {COND_MAX:e} are not judged"),
             "non-finite output is always a failure; NaN coefficients of the multi-task estimator with n*penalty*l1_ratio == 0 carry the known-finding signature of the 0/0 in block_soft_thresholding, every other non-finite output the plain signature".into(),
+            "documented defaults used by the oracle when an option is left untouched: LinearRegression fits an intercept ('By default, an intercept will be fitted'); ElasticNetParams table: penalty 1.0, l1_ratio 0.5, with_intercept true, tolerance 1e-4; lasso() = l1_ratio 1, ridge() = l1_ratio 0; max_iterations is always set explicitly".into(),
             "predict must equal X w + b within 64*eps*(|b| + sum_j |x_ij w_j|)".into(),
             "f32 cases are mild (scales 0.1..10, offsets <= 1 scale, no collinear pair); for f32 the exact-zero rule, the two-budget ridge rule and the budget rule are not applied".into(),
             "trusted base: ndarray, the harness' own Gaussian elimination / Jacobi eigen-solver / coordinate descent (used only to propose candidate points, whose objective is evaluated from the definition)".into(),
@@ -806,11 +826,11 @@ pub fn property() -> Property {
         subs: vec![
             prop_sub("elasticnet", 6000, 48000, |t: Tier| enet_strategy(Flavor::Enet, t.pick(MAX_ITER_QUICK, MAX_ITER_THOROUGH)), check_enet)
                 .chunks(16)
-                .require(&["converged_reported_by_solver", "converged_two_budget_stationary", "solution_zero_and_nonzero_rows", "row_strictly_under_threshold", "uncentred_x_with_intercept", "x_all_columns_centred"]),
+                .require(&["converged_reported_by_solver", "converged_two_budget_stationary", "solution_zero_and_nonzero_rows", "row_strictly_under_threshold", "uncentred_x_with_intercept", "x_all_columns_centred", "ctor_params_default", "ctor_params_new", "ctor_preset_lasso_or_ridge", "intercept_left_at_documented_default"]),
             prop_sub("multitask", 4500, 33000, |t: Tier| enet_strategy(Flavor::Multi, t.pick(MAX_ITER_QUICK, MAX_ITER_THOROUGH)), check_enet)
                 .chunks(16)
-                .require(&["converged_reported_by_solver", "converged_two_budget_stationary", "solution_zero_and_nonzero_rows", "row_strictly_under_threshold", "targets_2", "targets_3", "x_all_columns_centred"]),
-            prop_sub("ols", 6000, 60000, |_t: Tier| ols_strategy(), check_ols).chunks(8).require(&["uncentred_x_with_intercept", "f32", "f64"]),
+                .require(&["converged_reported_by_solver", "converged_two_budget_stationary", "solution_zero_and_nonzero_rows", "row_strictly_under_threshold", "targets_2", "targets_3", "x_all_columns_centred", "ctor_params_default", "ctor_params_new", "ctor_preset_lasso_or_ridge", "intercept_left_at_documented_default"]),
+            prop_sub("ols", 6000, 60000, |_t: Tier| ols_strategy(), check_ols).chunks(8).require(&["uncentred_x_with_intercept", "f32", "f64", "ctor_default_intercept_untouched", "ctor_new"]),
             prop_sub("elasticnet_f32", 1500, 9000, |_t: Tier| enet_strategy(Flavor::F32, F32_ITER), check_enet).chunks(4).require(&["converged_reported_by_solver"]),
         ],
     }
